@@ -110,6 +110,24 @@ def check_history(acc):
     def str_lib(names):
         return lambda: bibtexparser.parse_string("@a{k, author = {%s}, editor = {%s}}" % (" and ".join(names), names[0]))
 
+    # (c) NameParts itself: positional construction in the documented order (first, von, last, jr); copies keep every part
+    import copy as _copy
+
+    from bibtexparser.middlewares.names import NameParts
+
+    kw = NameParts(first=["F", "G"], von=["v"], last=["L"], jr=["J"])
+    for how, other in (("positional", lambda: NameParts(["F", "G"], ["v"], ["L"], ["J"])), ("copy", lambda: _copy.copy(kw)), ("deepcopy", lambda: _copy.deepcopy(kw)), ("deepcopy of a list", lambda: _copy.deepcopy([kw, kw])[1])):
+        acc.trace()
+        acc.case(nontrivial_key=("nameparts", how))
+        try:
+            o = other()
+            got = (o.first, o.von, o.last, o.jr, o.merge_last_name_first)
+        except Exception as ex:
+            acc.exception(ex, {"nameparts": how}, "NameParts " + how)
+            continue
+        exp = (["F", "G"], ["v"], ["L"], ["J"], kw.merge_last_name_first)
+        if got != exp or o != kw:
+            acc.violation({"oracle": "nameparts_keep_their_parts", "how": how}, {"case": {"nameparts": how}, "observed": repr(got), "expected": repr(exp)})
     groups = [CATALOGUE[i : i + 3] for i in range(0, 30, 3)]
     P = hostile.libraries() + [str_lib(g) for g in groups[:3]]  # unsplit names make MergeNameParts raise
     for style in ("last", "first"):
